@@ -147,6 +147,11 @@ class MementoFunction(MementoFunctionBase):
     def hash_rules(self) -> List[HashRule]:
         """Ordered list of hash rules from which the hash was computed"""
         self._update_dependencies()
+        if self.explicit_version is not None:
+            # An explicit version is not derived from the hash rules, so they are not collected
+            # while versioning. Collect them here so that the dependencies that are reported
+            # (dependency graph, transitive and direct dependencies) are those of the code.
+            self._recompute_version()
         return self._hash_rules
 
     explicit_version = None  # type: Optional[str]
